@@ -1,6 +1,8 @@
 package astvalidation
 
 import (
+	"fmt"
+
 	"github.com/wundergraph/graphql-go-tools/v2/pkg/ast"
 	"github.com/wundergraph/graphql-go-tools/v2/pkg/astvisitor"
 	"github.com/wundergraph/graphql-go-tools/v2/pkg/operationreport"
@@ -14,6 +16,7 @@ func RequiredArguments() Rule {
 		}
 		walker.RegisterEnterDocumentVisitor(&visitor)
 		walker.RegisterEnterFieldVisitor(&visitor)
+		walker.RegisterEnterDirectiveVisitor(&visitor)
 	}
 }
 
@@ -48,6 +51,23 @@ func (r *requiredArgumentsVisitor) EnterField(ref int) {
 
 		if r.operation.ArgumentValue(argument).Kind == ast.ValueKindNull {
 			r.StopWithExternalErr(operationreport.ErrArgumentOnFieldMustNotBeNull(name, fieldName))
+			return
+		}
+	}
+}
+
+// EnterDirective applies the same rule to the arguments of a directive (spec 5.4.2.1).
+func (r *requiredArgumentsVisitor) EnterDirective(ref int) {
+	name := r.operation.DirectiveNameBytes(ref)
+	definition, exists := r.definition.DirectiveDefinitionByNameBytes(name)
+	if !exists {
+		return // reported by DirectivesAreDefined
+	}
+	for _, i := range r.definition.DirectiveDefinitions[definition].ArgumentsDefinition.Refs {
+		argName := r.definition.InputValueDefinitionNameBytes(i)
+		value, ok := r.operation.DirectiveArgumentValueByName(ref, argName)
+		if !r.definition.InputValueDefinitionArgumentIsOptional(i) && (!ok || value.Kind == ast.ValueKindNull) {
+			r.StopWithExternalErr(operationreport.ExternalError{Message: fmt.Sprintf("argument: %s is required on directive: @%s but missing", argName, name)})
 			return
 		}
 	}
